@@ -350,6 +350,14 @@ class Lowerer:
 
     def cast(self, n):
         ck = n.get('castKind'); sub = n['inner'][0]
+        if ck == 'LValueToRValue' and sub.get('kind') == 'ArraySubscriptExpr':
+            a, i = sub['inner']; base = a
+            while base.get('kind') in ('ImplicitCastExpr', 'ParenExpr'): base = base['inner'][0]
+            if base.get('kind') == 'DeclRefExpr':
+                nm = self.var_name(base['referencedDecl'])
+                self.array_reads = getattr(self, 'array_reads', set()); self.array_reads.add(nm)
+                self.rule('array element read -> ARR_RD_<array> hook (identity unless the sidecar instruments it)')
+                return 'ARR_RD_%s(%s, %s)' % (nm, self.e(a), self.e(i))
         if ck in ('LValueToRValue', 'NoOp', 'FunctionToPointerDecay', 'ConstructorConversion', 'UserDefinedConversion'):
             return self.e(sub)
         if ck == 'ArrayToPointerDecay':
@@ -365,11 +373,13 @@ class Lowerer:
             # an EXPLICIT cast to a narrower UNSIGNED type is a deliberate modular truncation (e.g. gzip ISIZE = size mod 2^32):
             # written as a mask so that --conversion-check keeps watching the implicit conversions only
             t = ct(n); st = ct(sub)
-            masks = {'unsigned int': '0xffffffffull', 'unsigned short': '0xffffull', 'unsigned char': '0xffull'}
-            wide = {'long long', 'unsigned long long', 'long', 'unsigned long', 'int', 'unsigned int', 'short', 'unsigned short'}
+            masks = {'unsigned int': '0xffffffffll', 'unsigned short': '0xffffll', 'unsigned char': '0xffll'}
+            wide = {'long long', 'unsigned long long', 'long', 'unsigned long', 'int', 'unsigned int', 'short', 'unsigned short', 'char', 'signed char'}
+            signed = {'long long', 'long', 'int', 'short', 'char', 'signed char'}
             if t.name in masks and st.name in wide and st.name != t.name:
-                self.rule('explicit cast to narrower unsigned -> modular truncation')
-                return '((%s)(((unsigned long long)(%s)) & %s))' % (t.name, self.e(sub), masks[t.name])
+                self.rule('explicit cast to narrower/other-signedness unsigned -> modular truncation')
+                if st.name in signed: return '((%s)(((long long)(%s)) & %s))' % (t.name, self.e(sub), masks[t.name])
+                return '((%s)(((unsigned long long)(%s)) & %s))' % (t.name, self.e(sub), masks[t.name].replace('ll', 'ull'))
         if ck in ('IntegralCast', 'IntegralToFloating', 'FloatingToIntegral', 'FloatingCast'):
             t = ct(n)
             if self.is_enum(t) and not t.is_builtin:
